@@ -44,7 +44,7 @@ def cases(tier, seed):
         m = i % 6
         kw = dict(methods=(m,), seasons=(2, 4) if tier == "thorough" else (2, 3), off_season=False,
                   p_gw=0.25, p_custom=0.25, p_bunds=0.3, p_file=0.2, end_shape=gen.pick(rng, ["after", "mid", "anniv"]),
-                  p_co2=0.6, pre=(0, 0, 7))
+                  p_co2=0.6, pre=(0, 0, 7, 2, 25))
         if m == 4:
             kw.update(dry=True)
         if m == 1:
@@ -120,10 +120,12 @@ def run_case(case):
     nt = False
     smM = M.summary
     for k in sorted(by_season):
-        if k < 1:
-            continue
         rowsM = by_season[k]
         pk = (plant[k] - span0).days
+        if k < 1 and pk < 1:
+            continue            # season 0 of a run that starts on the planting date is the reference itself
+        if k < 1:
+            cov["cmp_season0_after_fallow_start"] += 1
         sp2 = copy.deepcopy(spec)
         sp2["start"] = plant[k].strftime("%Y/%m/%d")
         if pd.Timestamp(sp2["start"].replace("/", "-")) >= pd.Timestamp(spec["end"].replace("/", "-")) - pd.Timedelta(days=1):
